@@ -572,3 +572,19 @@ Theorem c13_code_arrayvec_unset : forall n (arr : list bytes) k,
   end.
 Proof. exact gen_arrayvec_push_is_unset. Qed.
 Print Assumptions c13_code_arrayvec_unset.
+
+(* ================================================================== AmendedRequest::unset_header itself (translated from the source) *)
+(** ... and [unset_header_list] is the translation of AmendedRequest::unset_header (theories/Gen2.v, [gen_am_unset_header]) for the
+    three names as_new_flow passes (valid, lower case); an invalid name would be refused with BadHeader
+    (proofs/Gen2_equiv_unsetheader.v). *)
+From Hoot.proofs Require Import Gen2_equiv_unsetheader.
+Theorem c13_code_unset_header : forall unset,
+  gen_am_unset_header unset (s2b "authorization") = unset_header_list unset (s2b "authorization") /\
+  gen_am_unset_header unset (s2b "cookie") = unset_header_list unset (s2b "cookie") /\
+  gen_am_unset_header unset (s2b "content-length") = unset_header_list unset (s2b "content-length").
+Proof. exact gen_am_unset_header_redirect_names. Qed.
+Print Assumptions c13_code_unset_header.
+Theorem c13_code_unset_header_invalid : forall unset k,
+  valid_header_name k = false -> gen_am_unset_header unset k = Err BadHeader.
+Proof. exact gen_am_unset_header_invalid. Qed.
+Print Assumptions c13_code_unset_header_invalid.
